@@ -51,7 +51,7 @@ Lemma Tm_seti s i x : Tm s (seti s i x). Proof. tme. Qed.
 
 Lemma Tm_start_rec s r c w f : Tm s (start_rec s r c w f).
 Proof.
-  unfold start_rec. destruct (negb f && rsucc (getr s r)); [apply Tm_refl|].
+  unfold start_rec. destruct (negb f && rsucc (getr s r) || rnil (getr s r)); [apply Tm_refl|].
   destruct (negb f && is_some (rctx (getr s r)) && negb (rexited (getr s r)) && ctx_live s (rctx (getr s r))); [apply Tm_refl|].
   eapply Tm_trans; [apply Tm_stop_timer|]. eapply Tm_trans; [apply Tm_cancel_inst|]. tme.
 Qed.
@@ -124,7 +124,7 @@ Lemma Tm_reset_routine fx s k cond : Tm s (fst (reset_routine fx s k cond)).
 Proof.
   unfold reset_routine. eapply Tm_trans; [apply Tm_norm_ctx|]. generalize (norm_ctx s). clear s. intros s. unfold reset_core.
   destruct (lookup (kmap s) k) as [r|]; [|apply Tm_refl]. destruct (negb (cond_match cond k)); [apply Tm_refl|].
-  set (s1 := cancel_inst s (rcancel (getr s r))). set (w0 := if has_ctx s1 || fx_reset fx then _ else _).
+  set (s1 := cancel_inst s (rcancel (getr s r))). match goal with |- context [new_record s1 k _ ?w] => set (w0 := w) end.
   pose proof (Tm_new_record s1 k (rlin (getr s r)) w0) as G. destruct (new_record s1 k (rlin (getr s r)) w0) as [s2 r2]. cbn [fst] in *.
   eapply Tm_trans; [apply Tm_cancel_inst|]. fold s1. eapply Tm_trans; [exact G|].
   destruct (has_ctx s2); [apply Tm_start_rec | apply Tm_refl].
@@ -211,6 +211,7 @@ Proof.
   - apply Tm_proceed. - apply Tm_wake. - apply Tm_fn_return. - apply Tm_bookkeep.
   - apply Tm_timer_cb.
   - unfold cancel_root. destruct (Nat.eqb c 0); [apply Tm_refl | tme].
+  - tme.
 Qed.
 
 Theorem run_InvClk fx dl sc es : InvClk (run fx (init dl sc) es).
